@@ -10,6 +10,7 @@ import (
 	"fmt"
 	"sort"
 	"sync"
+	"sync/atomic"
 
 	"github.com/ovrclk/akash/pubsub"
 	"github.com/ovrclk/akash/util/veriftrace"
@@ -36,12 +37,20 @@ type recorder struct {
 var (
 	curMu  sync.Mutex
 	curRec *recorder
+
+	// rootFanouts counts the fan-outs bus loops have completed ("fwdone" trace point of a root) in this process
+	rootFanouts int64
 )
 
 func installSink() {
 	veriftrace.SetSink(func(e veriftrace.Event) {
 		if e.Component != "bus" && e.Component != "drv" {
 			return
+		}
+		if e.Component == "bus" && e.Event == "fwdone" {
+			if root, _ := e.KV["root"].(bool); root {
+				atomic.AddInt64(&rootFanouts, 1)
+			}
 		}
 		curMu.Lock()
 		r := curRec
